@@ -1,5 +1,4 @@
-//go:build verif
-
+//go:build verif && verif_c07
 // Verification hooks for property C07 (formula references across structural
 // edits): thin exported wrappers around the unexported formula rewriter of
 // adjust.go. Compiled only with `-tags verif`; adds code and changes none.
